@@ -11,6 +11,8 @@ unambiguous. Shorthand helpers are compared with their lambda twins.
 
 import math
 
+import os
+
 from vmon import canon, gen
 from vmon.res import Result, exc_name
 
@@ -25,7 +27,6 @@ ASSUMPTIONS = [
     "dataiter.USE_NUMBA is switched off in this check: the partition logic is shared, and agreement of the Numba kernels is C08's subject",
     "group key equality: both missing, or both non-missing and == ; group order: per column ascending, missing last",
     "group_by() without columns is not judged (the statement quantifies over non-empty tuples of group columns); a 0-row frame has no group: no summary row, no member in any index set, and no error",
-    "helper twins are not compared for mode/count_unique when missing values are kept (drop_na=False), see C07",
 ]
 REACH = {"quick": {"op:aggregate": 2000, "op:count": 500, "op:split": 500, "op:modify": 500, "na-key": 1000, "multi-col": 1000,
                    "twin-compared": 1000, "tag:float_hostile": 100, "after-inplace-edit": 500, "tag:big": 4}}
@@ -219,9 +220,7 @@ def execute(case):
                 if ns != [len(r) for r in exp_rows] or ks != ns or sum(ns) != nrow:
                     res.violate("aggregate:wrong-counts", f"count() gave {ns}, nrow lambda gave {ks}, expected {[len(r) for r in exp_rows]}; {ctx}")
                 xna = any(c == canon.NA for c in pre["x"])
-                if name in ("mode", "count_unique") and xna and not kws.get("drop_na", name == "mode"):
-                    res.skip("twin: mode/count_unique with kept NA")
-                else:
+                if True:
                     tol = (1e-9, 1e-9)
                     if not canon.cells_eq(oc["y"], oc["y2"], widen=True, tol=tol):
                         res.violate(f"aggregate:helper-differs-from-lambda:{name}", f"{name}{kw}: shorthand {canon.short(oc['y'], 400)} vs lambda {canon.short(oc['y2'], 400)}; {ctx}")
